@@ -57,6 +57,19 @@ def pre_hook(world, gen_, mons):
         if k < 0.26:
             gen_.count += 1
             return inject(gen_)
+        if k < 0.30:
+            # a whale donates up to 2^118 of one asset to a funded pair (reserve products beyond every internal range)
+            w_ = gen_.w
+            funded = [p for p in w_.pairs if p.supply(w_.ledger) > 0]
+            if funded:
+                p = gen_.rng.choice(funded)
+                asset = gen_.rng.choice(p.assets)
+                amt = 1 << gen_.rng.choice([100, 108, 112, 116, 118])
+                who = gen_.rng.choice(["attacker", "trader1", "trader2"])
+                if w_.ledger.get(who, asset[1]) >= amt:
+                    gen_.count += 1
+                    gen_.last_kind = "whale_donation"
+                    return w_.op_donate(who, p.addr, asset, amt), []
         op, q = orig_next()
         gen_.last_kind = op["kind"]
         return op, q
